@@ -19,7 +19,8 @@ from .. import tlc, evidence
 from . import c11a
 
 CLASSES = ["valid", "first-byte", "second-byte", "zero-ps0", "zero-ps3", "zero-ps7", "no-sep", "short47", "long49",
-           "empty-msg", "ver-garbage", "ver-zero", "pub-ge-n", "pub-short", "pub-long", "all-zero-ct", "ct-one"]
+           "empty-msg", "ver-garbage", "ver-zero", "pub-ge-n", "pub-short", "pub-long", "all-zero-ct", "ct-one",
+           "pub-empty", "pub-one-byte", "pub-half", "pub-ff"]
 
 
 def craft(cls, n, e, k, client_version, rnd):
@@ -61,6 +62,14 @@ def craft(cls, n, e, k, client_version, rnd):
         return pm, enc(em)[1:]
     if cls == "pub-long":
         return pm, bytearray([0]) + enc(em)
+    if cls == "pub-empty":
+        return pm, bytearray()
+    if cls == "pub-one-byte":
+        return pm, bytearray([5])
+    if cls == "pub-half":
+        return pm, enc(em)[:k // 2]
+    if cls == "pub-ff":
+        return pm, bytearray([255] * k)
     if cls == "all-zero-ct":
         return pm, bytearray(k)
     if cls == "ct-one":
